@@ -70,6 +70,8 @@ def history_campaign(out, pid, plans, pclauses, antecedent, seed, mclauses=None,
             n0 = len(behs)
             behs = [b for b in behs if SELECT[plan["select"]](b)]
             out.coverage["export_runs"][-1]["selected"] = {"rule": plan["select"], "kept": len(behs), "of": n0}
+        if not plan.get("limit") and len(behs) > 5000:
+            plan = dict(plan, limit=5000)       # no plan replays more than 5000 behaviours (seeded sample of the export)
         if plan.get("limit") and len(behs) > plan["limit"]:
             import random
 
@@ -320,6 +322,7 @@ INV_C02 = ["Inv_C02_RecordSet", "Inv_C02_Digests", "Inv_C02_SingleFiles", "Inv_N
 generic(
     "C02", "model_checking",
     quick=[
+        dict(scope="big", mode="exhaustive", maxops=3, limit=150, mc=False),
         dict(scope="tree", mode="simulate", num=60, depth=8, limit=500, mc_maxgens=1, invariants=INV_C02),
         dict(scope="nest", mode="simulate", num=60, depth=8, limit=500, mc_maxgens=1, invariants=INV_C02, variants=[{"names": "plain"}, {"names": "mixed", "sfrev": True}, {"names": "nfd"}]),
         dict(scope="ign", mode="simulate", num=40, depth=7, limit=300, mc=False),
@@ -345,6 +348,7 @@ generic(
         dict(scope="tree", mode="simulate", num=60, depth=8, limit=600, mc_maxgens=1, invariants=INV_C03, variants=[{"names": "plain"}, {"names": "mixed", "touch": True}]),
         dict(scope="nest", mode="simulate", num=60, depth=8, limit=400, mc_maxgens=1, invariants=INV_C03),
         dict(scope="ign", mode="simulate", num=40, depth=7, limit=300, mc=False),
+        dict(scope="ignsf", mode="simulate", num=40, depth=8, limit=300, mc=False),
         dict(scope="deep", mode="simulate", num=30, depth=8, maxops=12, maxgens=30, limit=400, mc=False),
         dict(scope="tiny", mode="exhaustive", maxops=4, limit=800, mc_maxgens=2, invariants=INV_C03),
     ],
@@ -407,7 +411,7 @@ INV_C14 = ["Inv_C14_Frame", "Inv_C14_Scope", "Inv_C06_AppendOnly", "Inv_NoIntern
 generic(
     "C14", "model_checking",
     quick=[
-        dict(scope="cmds", mode="simulate", num=60, depth=10, limit=600, mc_maxgens=1, invariants=INV_C14, variants=[{"names": "plain"}, {"names": "mixed", "flatrel": True}, {"names": "xml", "spelling": "rel"}]),
+        dict(scope="cmds", mode="simulate", num=60, depth=10, limit=600, mc_maxgens=1, invariants=INV_C14, variants=[{"names": "plain"}, {"names": "mixed", "flatrel": True}, {"names": "xml", "spelling": "rel"}, {"names": "space", "flatdeep": True}]),
         dict(scope="nest", mode="simulate", num=60, depth=8, limit=600, mc=False,
              variants=[{"names": "prefix"}, {"names": "plain", "sfspell": "dotseg"}, {"names": "mixed", "spelling": "slash", "sfspell": "rel"}]),
         # failing runs: a comment XML cannot represent
@@ -438,7 +442,9 @@ generic(
 INV_C19 = ["Inv_C19_Info", "Inv_C19_InfoSF"]
 generic(
     "C19", "model_checking",
-    quick=[dict(scope="inf", mode="simulate", num=120, depth=10, limit=900, mc_maxgens=2, invariants=INV_C19)],
+    quick=[dict(scope="inf", mode="simulate", num=120, depth=10, limit=900, mc_maxgens=2, invariants=INV_C19),
+           dict(scope="inf", mode="simulate", num=40, depth=9, limit=300, mc=False, seed_offset=3, tag="l",
+                variants=[{"names": "plain", "location": "link_parent"}, {"names": "mixed", "location": "link_parent", "sfspell": "dotseg"}])],
     thorough=[dict(scope="inf", mode="simulate", num=1500, depth=12, mc_maxgens=3, invariants=INV_C19),
               dict(scope="cmds", mode="simulate", num=300, depth=10, mc=False)],
     pclauses=["P_C19_Info", "P_C19_Dates", "P_C19_InfoSF"],
@@ -464,7 +470,8 @@ generic(
 generic(
     "C07", "model_checking",
     quick=[dict(scope="dh6", mode="simulate", num=60, depth=10, limit=900, mc=False),
-           dict(scope="dhopt", mode="simulate", num=20, depth=8, limit=400, mc=False)],
+           dict(scope="dhopt", mode="simulate", num=20, depth=8, limit=400, mc=False),
+           dict(scope="nest2f", mode="simulate", num=30, depth=8, limit=300, mc=False)],
     thorough=[dict(scope="dh6", mode="simulate", num=1200, depth=12, mc=False),
               dict(scope="dhopt", mode="simulate", num=200, depth=9, limit=4000, mc=False),
               dict(scope="ign", mode="simulate", num=200, depth=8, mc=False),
@@ -887,7 +894,7 @@ def c16(tier, seed):
         for c, val in v.items():
             if c.startswith("M_") and val is False:
                 drift[c] += 1
-        for c in ("P_C16_Dates", "P_C16_Size", "P_C16_FileNameUTC"):
+        for c in ("P_C16_Dates", "P_C16_Carried", "P_C16_Size", "P_C16_FileNameUTC"):
             counts[c] += 1
             if v.get(c) is False:
                 out.violation(c, "zone=%s file_time=%s now=%s size=%s written_size=%s dates=%s exc=%s" % (ln["zone"], ln["t"], ln["now"], ln["size"], ln["size_written"], json.dumps([(d["what"], d["text"]) for d in ln["dates"]]), ln["exc"]),
@@ -931,7 +938,7 @@ def c01(tier, seed):
         for fm in subs:
             cases.append((k, n, fm, "aggregate", seed)); k += 1
         for f in HC.CLI_FORMATS + ["xxh32"]:
-            for ep in ("hash_file", "class_hash_file", "hash_data"):
+            for ep in ("hash_file", "class_hash_file", "hash_data", "stream"):
                 cases.append((k, n, [f], ep, seed)); k += 1
         cases.append((k, n, ["sha1", "xxh3", "xxh32"], "multi_data", seed)); k += 1
         for f in HC.CLI_FORMATS:
